@@ -53,15 +53,16 @@ SPEC = dict(
     extra=_two_processes,
     level="proof",
     design_ref="DESIGN.md §5 C38",
-    technique="proof-of-model (trivial: the model is a function of the tape) + replay correspondence (same process, two processes, model trace)",
-    level_text=("Partial. The Lean theorems (run_deterministic, hook_decision_deterministic) are trivial by construction — the "
-                "model is a function of (hook states, tape) — and are labelled as such; driver_calls_replay states that each "
-                "driver call logs exactly what it drew. The real content, that the implementation depends on nothing else "
-                "(FxHashMap iteration in the keyed hooks, addresses, std hash seeds), is not a theorem: every generated "
-                "case (hook creation, feeding, decisions, run_hooks; keyed hooks favoured) is (1) replayed on fresh real hooks in "
+    technique="replay correspondence (same process, two separately started processes, model trace) + small model lemmas (call-level replay); determinism of the pure model itself is trivial",
+    level_text=("Partial; the claim is carried by replay correspondence, not by a theorem. What is proved about the model: (1) trivial-by-construction statements "
+                "(run_deterministic, hook_decision_deterministic: the model is a function of (hook states, tape), so equal inputs give equal runs - these carry no information about the code); "
+                "(2) driver_calls_replay: every driver call logs exactly what it drew and advances the tape by one entry; recorded_call_replays: a driver primitive re-run on the value it logged (as offset into the requested range) returns the same value and logs the same call - the call-level fact behind 'a recorded decision log reproduces the run'; its lifting to whole run_hooks runs (per-hook tape framing as in C37) is NOT proved; "
+                "(3) passthrough_decision_ignores_tape: a hook that makes no driver call decides the same on every tape. "
+                "The real content of the property - that the implementation has no input other than (hook states incl. FxHashMap iteration order, driver answers): no dependence on std hash seeds, addresses, "
+                "allocation order - is NOT a theorem. FxHashMap iteration order is not modelled (FxHasher is unseeded, so the order is a function of the insertion/removal history; the model takes the observed order as an input on every op line). It is checked by comparison of runs: every generated case (hook creation, feeding, decisions, run_hooks; keyed hooks favoured) is (1) replayed on fresh real hooks in "
                 "the same process, (2) run in two separately started processes with different environment/heap layout, and "
-                "(3) diffed against the compiled model; decision logs, outputs, panics and the observed map iteration orders "
-                "must coincide."),
+                "(3) diffed against the compiled model; decision logs, outputs, panics and the observed FxHashMap iteration orders "
+                "(two maps built by the same insertion sequence must iterate identically) must coincide."),
     level_note=("Not covered: CompiledSim::fuzz_repro end to end (bolero's bytes driver, the compiled dylib, tokio runtime); "
                 "HashMap-typed Hooks/InlineHooks registries in compiled.rs (keyed by location, looked up, not iterated for "
                 "decisions); the inline hooks' internal FxHashMaps (KeyedStreamOrderHook)."),
